@@ -1,7 +1,7 @@
 //! Runs the real parser (the system under test) on a stream scenario and normalises what it
 //! answered. Nothing here judges anything.
 use super::tape::*;
-use json_syntax::parse::{Error, Options};
+use json_syntax::parse::{Context, Error, Options, Parser};
 use json_syntax::{CodeMap, NumberBuf, Parse, Value};
 use std::panic::{catch_unwind, AssertUnwindSafe};
 
@@ -146,6 +146,11 @@ fn go<T: SimTarget>(sc: &StreamSc, stream: &mut SimStream, text: &str, bytes: &[
         Entry::FromStr => T::from_str_entry(text).map_err(inf),
         Entry::SliceWith => T::parse_slice_with(bytes, o).map(|(v, m)| (v, Some(m))).map_err(inf),
         Entry::Slice => T::parse_slice(bytes).map(|(v, m)| (v, Some(m))).map_err(inf),
+        Entry::ParseIn => {
+            let ctx = match sc.context { 1 => Context::Array, 2 => Context::ObjectKey, 3 => Context::ObjectValue, _ => Context::None };
+            let mut parser = Parser::new_with(AsDecoded(stream), o);
+            T::parse_in(&mut parser, ctx).map(|m| (m.into_value(), None)).map_err(|e| conv(e, id))
+        }
     };
     r.map(|(v, m)| {
         let traversed = v.walk();
